@@ -25,8 +25,8 @@ def check_bits(r, bits, containers=('list', 'numpy')):
     import dsw
     L = len(bits)
     val = O.bits_value(bits)
-    case = {'bits': ''.join(map(str, bits)) if L <= 64 else None, 'L': L,
-            'spec': None if L <= 64 else _bspec(bits)}
+    case = {'bits': ''.join(map(str, bits)) if L <= 160 else None, 'L': L,
+            'spec': None if L <= 160 else _bspec(bits)}
     r.states += 1
     if L > 0 and 0 < val < (1 << L) - 1:
         r.nontriv += 1
@@ -60,7 +60,7 @@ def check_dna(r, s):
     import dsw
     L = len(s)
     val = O.idx(s)
-    case = {'dna': s if L <= 64 else None, 'L': L, 'spec': None if L <= 64 else _dspec(s)}
+    case = {'dna': s if L <= 160 else None, 'L': L, 'spec': None if L <= 160 else _dspec(s)}
     r.states += 1
     if L > 0 and s.strip('A') != '' and s[0] == 'A':
         r.nontriv += 1
@@ -149,6 +149,17 @@ def _w_long(chunk):
     return r
 
 
+def _w_sweep(chunk):
+    r = core.Res()
+    for kind, x in chunk:
+        if kind == 'sweep_bits':
+            check_bits(r, list(x))
+        else:
+            check_dna(r, x)
+        r.ctr[kind] += 1
+    return r
+
+
 def run(ctx):
     from ..observe import install
     import dsw
@@ -168,6 +179,13 @@ def run(ctx):
     ch = [('bits', L, i) for L in bl for i in range(7)] + [('dna', L, i) for L in dl for i in range(8)]
     ch.sort(key=lambda c: -c[1])
     ctx.pmap(_w_long, ch)
+    # leading-zero / leading-A sweeps: block boundaries of any word size up to 64 symbols at every offset
+    from ..coder import zero_run_messages
+    sweeps = [('sweep_bits', b) for b in zero_run_messages()]
+    for z in list(range(0, 40)) + [63, 64, 65]:
+        for t in ('C', 'TGCA', 'T' * 12, 'CAAAAAAAAAAAG', 'T' * 24):
+            sweeps.append(('sweep_dna', 'A' * z + t))
+    ctx.pmap(_w_sweep, core.chunks_of(sweeps, 20))
     ctx.bounds = {'all_bit_arrays_up_to': LB, 'all_dna_strings_up_to': LD, 'long_bits': bl, 'long_dna': dl}
     ctx.rule = ('one case = one bit array / DNA string, converted to a number on the string and the integer path (list and '
                 'numpy containers) and back at the original and at a wider width, compared with Python int(...) / base-4 '
